@@ -24,12 +24,12 @@ Notation target := (target parse_index parse_usize).
 Notation resolve := (resolve parse_index parse_usize).
 Notation mk_disc := (mk_disc H enc).
 
-(* the path string the holder reports for an address: member names as they are, indices in decimal *)
+(* the path string the holder reports for an address: member names escaped as JSON pointer tokens, indices in decimal *)
 Fixpoint render (a : addr) : string :=
   match a with
   | [] => ""
-  | SKey k :: r => "/" ++ k ++ render r
-  | SIdx i :: r => "/" ++ show_nat i ++ render r
+  | SKey k :: r => "/" ++ esc_tok k ++ render r
+  | SIdx i :: r => "/" ++ esc_tok (show_nat i) ++ render r
   end.
 
 Lemma app_nil_r_s (s : string) : (s ++ "")%string = s.
@@ -257,12 +257,13 @@ Proof.
     exact (mark_NodePath_new key salt toks t t1 k s a Hw Em Ht Hr).
 Qed.
 
-(* when every index token is written canonically, the reported path is the issuer's token list joined by '/' *)
+(* when every index token is written canonically, the reported path is the issuer's (unescaped) token list,
+   each token escaped again, joined by '/' *)
 Definition canonical (tok : string) : Prop :=
   forall i, parse_index tok = Some i \/ parse_usize tok = Some i -> show_nat i = tok.
 
 Fixpoint join_tokens (toks : list string) : string :=
-  match toks with [] => "" | x :: r => "/" ++ x ++ join_tokens r end.
+  match toks with [] => "" | x :: r => "/" ++ esc_tok x ++ join_tokens r end.
 
 Lemma render_tokens : forall toks key j a,
   jresolve parse_index parse_usize toks key j = Some a -> Forall canonical (toks ++ [key]) ->
